@@ -275,6 +275,10 @@ func cmdCheck(argv []string) int {
 	harnessDir := filepath.Join(verifDir, "harness")
 	buildDir := filepath.Join(verifDir, ".build")
 	os.MkdirAll(buildDir, 0o755)
+	if repoDir != "/repo" && *evDir == filepath.Join(verifDir, "evidence") {
+		// runs against another checkout are experiments, not evidence about /repo
+		*evDir = filepath.Join(buildDir, "evidence-alt")
+	}
 	if strings.HasPrefix(id, "SELF") {
 		// the engine's own regression runs are not property evidence
 		*evDir = filepath.Join(buildDir, "selftest")
